@@ -93,12 +93,24 @@ def mutate_attr(
     type_check: bool = True,
     force: bool = False,
     skip_invalidation: bool = False,
+    on_error: Optional[Callable[[], None]] = None,
 ) -> Any:
     """
     Set attribute `attr` of `obj` to `value`, and return the mutated
     instance. If `inplace` is `False`, copy the instance before assigning
-    the new attribute value.
+    the new attribute value. If the assignment fails, `on_error` is called
+    (before the exception propagates) to undo whatever the caller had already
+    done to `obj` in order to build `value`.
     """
+    if on_error is not None:
+        try:
+            return mutate_attr(
+                obj, attr, value, inplace, type_check, force, skip_invalidation
+            )
+        except BaseException:
+            on_error()
+            raise
+
     if value is MISSING or value is EMPTY or value is UNCHANGED:
         return obj
 
